@@ -69,6 +69,9 @@ var shapes = []shape{
 	{Name: "keys-chan", Kind: "park", Body: "bc := chan()\nparked()\nkeys(bc)", CanExit: true},
 	{Name: "sleep", Kind: "park", Body: "parked()\ntime.sleep(1000000)", CanExit: true},
 	{Name: "thread-wait-blocked", Kind: "park", Body: "wt := spawn(func() { wc := chan()\n<-wc })\nparked()\nwt.wait()", CanExit: true},
+	// the thread runs host code that does not look at the context at all (hostblock() returns when the
+	// case is over): only Thread.Wait itself can notice the cancellation
+	{Name: "thread-wait-hostcode", Kind: "park", Body: "wt := spawn(hostblock)\nparked()\nwt.wait()", CanExit: true},
 	{Name: "cb-map-recv", Kind: "park", Body: "bc := chan()\n[1, 2].map(func(x) { parked()\n<-bc })", CanExit: true},
 	{Name: "cb-try-recv", Kind: "park", Body: "bc := chan()\ntry(func() { parked()\n<-bc })", CanExit: true},
 	{Name: "cb-try-sleep", Kind: "park", Body: "try(func() { parked()\ntime.sleep(1000000) })", CanExit: true},
